@@ -4,14 +4,14 @@ HOOKS = {
               "compile /repo's sources through symlinks)",
     "baseline_off_cmd": "cd /repo && cargo nextest run --workspace --no-fail-fast --tool-config-file "
                         "pb:/w/lib/nextest.toml --profile pb --test-threads 8 --offline",
-    "source_commits": ["e2ad724", "3a73802", "1c721a0", "41fe99d", "254b2fc", "88d9964", "02f3736"],
+    "source_commits": ["e2ad724", "3a73802", "1c721a0", "41fe99d", "254b2fc", "88d9964", "02f3736", "ae63f80", "37fb407"],
     "add_only": True,
 }
 
 ENGINES = [
     {"name": "tlc", "path": "/verif/lib/vlib/tlc.py", "kind_free_text": "TLC 1.8 explicit-state model checker over spec/*.tla",
      "serves_properties": []},
-    {"name": "harness-agent", "path": "/verif/harness/agent", "serves_properties": ["C01", "C02", "C03", "C05", "C11", "C15", "C16", "C18", "C19"],
+    {"name": "harness-agent", "path": "/verif/harness/agent", "serves_properties": ["C01", "C02", "C03", "C04", "C05", "C07", "C10", "C11", "C14", "C15", "C16", "C18", "C19"],
      "kind_free_text": "cargo crate compiling /repo/proxy_agent/src through symlinks with the verif cfg; drivers: "
                        "function tables, proxy rig (real ProxyServer + mock hosts in a netns), disk, ..."},
     {"name": "harness-ebpf", "path": "/verif/harness/ebpf", "serves_properties": ["C06"],
@@ -28,6 +28,30 @@ NOTES = ("Every check: bin/check <id> --tier quick|thorough. TLA+ specs in spec/
 NOT_APPLICABLE = {}
 
 CHECKS = {
+    "C04": {
+        "text": "Canon.tla defines the string to sign on byte sequences; TLC checks over a complete small universe (colliding keys a=bc/ab=c, repeated and mixed-case names, valueless keys, blanks) that it covers every header and every query parameter (Injective, Deterministic). Seeded adversarial requests go through the real proxy and through hyper_client::build_request; the request AS RECEIVED by the mock host is tokenised, TLC (CanonTrace) computes the canonical string, and HMAC-SHA256 with Python's hmac under the key registered for the announced id must equal the header's MAC; exactly one authorization header with the right scheme and key id on non-exempt requests, none added on exempt ones; builder route and parts route compared on the same request.",
+        "note": 'Kernel audit map replaced by the cfg-guarded stand-in (hooks H1/H2); mock hosts in a private netns capture raw bytes.',
+        "technique": "TLA+ canonicalisation spec + TLC (model checking and as canonicalisation oracle over captured requests); independent HMAC; spec->impl and impl->spec binding",
+        "design_ref": "DESIGN.md §3 Canon.tla",
+    },
+    "C07": {
+        "text": "SingleUse is model-checked on Proxy.tla with two connections and two ports (lookup and remove as separate steps, every interleaving, close/reopen); every 5-operation history over two connection slots and two source ports printed by SingleUseGen.tla (attributed/direct connects, keep-alive requests, close, immediate REAL source-port reuse) is replayed on the real ProxyServer, plus a concurrent stress run; TLC validates every observed request against SingleUseTrace.tla: relayed only to its own connection's recorded destination with its own identity in the claims header, unattributed connections (incl. reused ports without a fresh record) refused with 421.",
+        "note": 'Kernel audit map replaced by the cfg-guarded stand-in (hooks H1/H2); mock hosts in a private netns capture raw bytes.',
+        "technique": "TLA+ spec + TLC model checking; TLC-generated histories replayed with real port reuse; impl->spec trace validation",
+        "design_ref": "DESIGN.md §3 Proxy.tla (C07)",
+    },
+    "C10": {
+        "text": "KeyGen.tla (the key actions of Proxy.tla with a history variable) is model-checked in both designs: two actor messages (KeyPairing violated) and one message (holds). A probe using the H4 schedule gate as a counter determines how many key reads each of the four signers (proxied request, goal state, shared config, IMDS) performs; every interleaving TLC prints for that design is forced on the real code through the gate (signer parked at its second read while the keeper rotates/clears the key) and the mock host's capture is verified with an independent HMAC; a stress run (signers x rotating keeper) is validated by TLC against KeyPairTrace.tla (announced id = key that verifies the MAC, id was latched).",
+        "note": "Hook H4: schedule point at the entry of KeyKeeperSharedState::get_key/set_key. Independent canonicalisation + HMAC in lib/vlib/canon.py.",
+        "technique": "TLA+ spec + TLC model checking of both designs; deterministic schedule replay through gates; impl->spec trace validation of a stress run",
+        "design_ref": "DESIGN.md §3 Proxy.tla (C10)",
+    },
+    "C14": {
+        "text": "Relay.tla (per-connection request queue, one request served at a time, one upstream connection behind a mutex, host responses) is model-checked for Order, HostSeesInOrder and AllAnswered (liveness) with two connections x three pipelined requests. Seeded exchanges on concurrent keep-alive connections with pipelining bursts (every method, repeated header names, binary-safe values, bodies 0..100 KiB declared or chunked at random boundaries, responses with random status/headers/bodies declared or chunked in random frames) are captured raw at both ends and compared field by field (bodies by SHA-256); TLC validates the per-exchange facts and the ordering against RelayTrace.tla.",
+        "note": 'Kernel audit map replaced by the cfg-guarded stand-in (hooks H1/H2); mock hosts in a private netns capture raw bytes. Framing headers and Date may be regenerated; names compared case-insensitively.',
+        "technique": "TLA+ spec + TLC model checking (safety + liveness); raw-capture comparison at both ends; impl->spec trace validation",
+        "design_ref": "DESIGN.md §3 Relay.tla",
+    },
     "C01": {
         "text": "TLC checks Mediation/StatusMap/NothingLeaks on three factored exhaustive configurations of Proxy.tla; every terminal scenario of the single-connection model (attribution x identity x destination x rule mode x fault x key x request shape, ~13k) is concretised with seeded random traffic and replayed on the real ProxyServer; every observed request (client status, whether and what the host received, stray bytes on the upstream connection) is validated by TLC against ProxyTrace's P_C01_* invariants, which recompute authorization from the recorded inputs with Authz!Result and Rbac!Decision.",
         "note": 'Kernel audit map replaced by the cfg-guarded stand-in (hooks H1/H2); mock hosts in a private netns; one request per connection in this pipeline (keep-alive/reuse/concurrency: C07, C14); identity space = OS users root/daemon/bin/nobody and the harness process; rule documents are generated realisations of allow/deny, decided independently by Rbac.tla.',
